@@ -1,6 +1,7 @@
 package main
 
 import (
+	"os"
 	"go/constant"
 	"fmt"
 	"go/token"
@@ -343,6 +344,13 @@ func (vf *VerifyFunc) doCall(st *State, fr *Frame, in ssa.Instruction, cc *ssa.C
 		vf.yield(st)
 	}
 
+	// a callee that is not known to be effect-free may panic: in a handler whose panics are recovered by an interceptor
+	// the unwinding runs this function's deferred calls; a deferred Unlock of a mutex that is not held at that moment is
+	// a fatal runtime error ("unlock of unlocked mutex"), which the interceptor cannot contain
+	if top && vf.fc != nil && vf.fc.Flags["recovered"] && vf.lockcheck && !(key != "" && eng.isPure(key)) && !strings.HasPrefix(key, "builtin:") && !strings.HasPrefix(key, "(*sync.") {
+		vf.unwindCheck(st, fr, in, label)
+	}
+
 	// call-site assertions (before)
 	if top && vf.fc != nil {
 		for _, c := range vf.fc.Calls {
@@ -652,6 +660,9 @@ func (vf *VerifyFunc) applyContractSig(st *State, fr *Frame, in ssa.Instruction,
 			continue // a postcondition over the callee's own locals says nothing a caller can use
 		}
 		t := vf.evalClauseIn(st, c, env, old, fc.PkgPath)
+		if os.Getenv("GOVC_DEBUG_ENSURES") != "" && invoked {
+			fmt.Fprintf(os.Stderr, "DEBUG invoked ensures %s: %s => %s\n", fc.Key, c.Src, trunc(t, 300))
+		}
 		st.assume(t)
 	}
 	return res
@@ -1223,6 +1234,59 @@ func (vf *VerifyFunc) lockOp(st *State, m *Val, op string, in ssa.Instruction) {
 	}
 }
 
+// unwindCheck simulates the deferred calls of the top frame in the order a panic would run them (last registered first)
+// and requires every deferred Unlock / RUnlock to find its mutex held.
+func (vf *VerifyFunc) unwindCheck(st *State, fr *Frame, in ssa.Instruction, label callLabel) {
+	if len(fr.defers) == 0 {
+		return
+	}
+	w := st.heapGet("L:w", "(Array Int Bool)")
+	r := st.heapGet("L:r", "(Array Int Int)")
+	wHeld := map[string]string{} // mutex term -> symbolic "write-held" after the defers simulated so far
+	rCnt := map[string]string{}
+	getW := func(a string) string {
+		if v, ok := wHeld[a]; ok {
+			return v
+		}
+		return sel(w, a)
+	}
+	getR := func(a string) string {
+		if v, ok := rCnt[a]; ok {
+			return v
+		}
+		return sel(r, a)
+	}
+	var goals []string
+	for i := len(fr.defers) - 1; i >= 0; i-- {
+		d := fr.defers[i]
+		if d.call.Call.IsInvoke() || len(d.args) == 0 {
+			continue
+		}
+		fn, ok := d.call.Call.Value.(*ssa.Function)
+		if !ok {
+			continue
+		}
+		a := d.args[0].Tm
+		switch fn.String() {
+		case "(*sync.Mutex).Lock", "(*sync.RWMutex).Lock":
+			wHeld[a] = "true"
+		case "(*sync.Mutex).Unlock", "(*sync.RWMutex).Unlock":
+			goals = append(goals, getW(a))
+			wHeld[a] = "false"
+		case "(*sync.RWMutex).RLock":
+			rCnt[a] = "(+ " + getR(a) + " 1)"
+		case "(*sync.RWMutex).RUnlock":
+			goals = append(goals, "(> "+getR(a)+" 0)")
+			rCnt[a] = "(- " + getR(a) + " 1)"
+		}
+	}
+	if len(goals) == 0 {
+		return
+	}
+	st.check("lock", fmt.Sprintf("panic-unwind-unlocks-only-held-mutexes/%s#%d", label.name, label.ord), "C14",
+		"if this call panics, the deferred unlocks run while unwinding: each must find its mutex held (an unlock of an unlocked mutex is a fatal error no interceptor contains)", st.pos(in), and(goals...))
+}
+
 // monitorInv: monitor invariants of the function under contract. After acquiring the mutex the invariant is assumed
 // (whoever released it last established it); before releasing the write lock it is an obligation.
 func (vf *VerifyFunc) monitorInv(st *State, mutexAddr string, release bool, in ssa.Instruction) {
@@ -1345,6 +1409,12 @@ func (e *Engine) staticType(fc *FuncContract, x Expr) types.Type {
 func (vf *VerifyFunc) goSite(st *State, fr *Frame, g *ssa.Go) {
 	if len(st.frames) != 1 {
 		return
+	}
+	if vf.fc != nil && vf.fc.Flags["sequential"] {
+		// a function declared sequential does its work itself, in program order: handing it to a new goroutine
+		// gives up the order (used for the per-consumer dispatch worker, C11)
+		lab := vf.eng.info(fr.fn).callOrd[g]
+		st.check("sequential", fmt.Sprintf("go %s#%d", lab.name, lab.ord), "C11", "work is started on a new goroutine inside a function declared sequential: the order of its effects is no longer the program order", st.pos(g), "false")
 	}
 	cc := &g.Call
 	args, fnv := vf.evalCallArgs(st, fr, cc)
